@@ -104,6 +104,12 @@ pub fn build_file(c: &VolumeCase) -> (Vec<u8>, Vec<DrdSpec>, usize) {
 
 pub fn check_volume(c: &VolumeCase) -> Check {
     let (bytes, radials, _) = build_file(c);
+    // history: a failed conversion of a truncated copy on the same thread must not influence what follows
+    if let Some(sel) = c.splits.first() {
+        let cut = 24 + (((*sel as usize) * bytes.len().saturating_sub(24)) >> 16);
+        let truncated = File::new(bytes[..cut.min(bytes.len())].to_vec());
+        let _ = no_panic("File::scan", || truncated.scan().map(|_| ()))?;
+    }
     let file = File::new(bytes);
     let scan = no_panic("File::scan", || file.scan())?;
     let first_vcp = radials.iter().find_map(|r| r.vol.as_ref().map(|v| v.vcp));
